@@ -192,9 +192,9 @@ def run_check(sub, case):
     except Reject:
         _TAGS["rejected-case"] += 1
         return None
-    except (KeyboardInterrupt, SystemExit, MemoryError):
+    except (KeyboardInterrupt, SystemExit):
         raise
-    except Exception as exc:  # noqa: BLE001
+    except Exception as exc:  # noqa: BLE001 - MemoryError included: the workers run under an address-space limit
         v = classify_exception(exc)
         if v is None:
             raise
@@ -367,7 +367,22 @@ def _worker(args):
     return _run_shard(*args)
 
 
+def _limit_memory():
+    """address-space limit per worker (VERIF_MEM_GB, default 8): a defect that asks for an absurd amount of memory
+    becomes a MemoryError inside the check (a violation with a library frame) instead of an out-of-memory kill"""
+    try:
+        import resource
+
+        gb = float(os.environ.get("VERIF_MEM_GB", "8"))
+        if gb > 0:
+            lim = int(gb * 2**30)
+            resource.setrlimit(resource.RLIMIT_AS, (lim, lim))
+    except Exception:  # noqa: BLE001
+        pass
+
+
 def _child(conn, args):
+    _limit_memory()
     try:
         conn.send(_run_shard(*args))
     finally:
@@ -422,6 +437,7 @@ def run_property(prop, tier, replay=None, only=None):
     subs = [s for s in mod.SUBS if only is None or s.name in only]
     known = load_known(prop)
 
+    _limit_memory()  # the replay tier runs in this process
     if replay is not None:
         return _replay(prop, mod, replay)
 
